@@ -2,7 +2,7 @@
    Property theorems only (see Properties/C11.v). *)
 From Coq Require Import List ZArith.
 Import ListNotations.
-Require Import MayV.Sync.CondvarModel MayV.Sync.CondvarInv MayV.Sync.CondvarL4 MayV.Sync.CondvarThm.
+Require Import MayV.Sync.CondvarModel MayV.Sync.CondvarInv MayV.Sync.CondvarL4 MayV.Sync.CondvarThm MayV.Sync.BarrierModel MayV.Sync.BarrierCv.
 Open Scope Z_scope.
 
 (* ---- (ii) wait re-acquires the mutex on every return path ---- *)
@@ -38,3 +38,27 @@ Theorem C11_relock_cancel_disabled :
 Proof. exact relock_cancel_disabled. Qed.
 Print Assumptions C11_relock_cancel_disabled.
 
+
+(* ---- never hang, quiescence form, at the level of the Condvar itself: an actor inside wait / wait_timeout / notify_one /
+   notify_all always has an enabled transition of its own (Step / Resume / Choose) unless it is parked WITHOUT any reason to
+   resume (no token, deadline not reached or none, not a cancelled coroutine) or is re-locking while somebody holds the mutex;
+   in particular a wait_timeout whose deadline has been reached is resumable, and so is a cancelled coroutine ---- *)
+Theorem C11_condvar_call_progress :
+  forall s a, Reach s -> apc (A s a) <> Idle -> apc (A s a) <> Dead ->
+  (exists c, inner_ok a c = true /\ step s c <> None) \/
+  (apc (A s a) = WW /\ tok (Bk s (ab (A s a))) = false /\ due (adl (A s a)) (now s) = false /\ (aco (A s a) && ccan (A s a))%bool = false) \/
+  (apc (A s a) = L /\ mx s <> None).
+Proof. exact cv_progress. Qed.
+Print Assumptions C11_condvar_call_progress.
+
+(* the holder of the mutex is never parked, re-locking or dead, and when it is inside a Condvar call it can step *)
+Theorem C11_mutex_holder_can_step :
+  forall s a, Reach s -> mx s = Some a -> apc (A s a) <> Idle -> exists c, inner_ok a c = true /\ step s c <> None.
+Proof. exact cv_holder_progress. Qed.
+Print Assumptions C11_mutex_holder_can_step.
+
+(* a dead actor is a coroutine that was cancelled *)
+Theorem C11_dead_only_if_cancelled :
+  forall s a, Reach s -> apc (A s a) = Dead -> ccan (A s a) = true /\ aco (A s a) = true.
+Proof. exact dead_only_if_cancelled. Qed.
+Print Assumptions C11_dead_only_if_cancelled.
